@@ -765,7 +765,7 @@ func verifC14CheckOne(f verifkit.F, c *verifkit.Case, rec *verifkit.Rec, cp *ver
 		key = "C14/spiffe-regex-unescaped/trust-domain"
 	} else if q, _, qerr := cp.allowed(cp.evalEscaped, conn); qerr == nil && q == v.Allowed {
 		key = "C14/spiffe-pattern-not-url-escaped"
-	} else if alt := verifC14DecideRank(p, caller, false, true); alt.Defined && alt.Allowed == got &&
+	} else if alt := verifC14DecideRank(p, caller, false, true); (cp.keyPrefix == "" || cp.sameAsDirect) && alt.Defined && alt.Allowed == got &&
 		verifC14DecideRank(p, caller, true, true).Allowed == got {
 		// the policy follows "source specificity first", not the documented precedence order
 		key = "C14/exact-source-on-wildcard-destination-not-shadowed"
